@@ -3,6 +3,8 @@ package main
 import (
 	"fmt"
 	"strings"
+
+	textwire "github.com/textwire/textwire/v2"
 )
 
 // C06 — a page using a layout renders the layout with reserves filled by its inserts.
@@ -17,6 +19,7 @@ type c06Case struct {
 	Data    int    `json:"data"`           // 0: v bound to "V", 1: v unbound, 2: v bound to 0 (falsy)
 	Cfg     int    `json:"cfg"`            // 0: dir t, ext .tw   1: dir tpl/views, ext .tw.html
 	Special string `json:"special,omitempty"`
+	Prior   bool   `json:"prior,omitempty"` // another directory with files of the same names (other layout, other pages) was loaded and rendered earlier in the process
 }
 
 var c06LayoutItems = []string{"T", "Ra", "Rb", "IFa", "IFb", "IFFa", "EACHa", "EACHb", "PV", "T2", "IFEa", "AW", "PW", "COMP"}
@@ -190,8 +193,25 @@ func c06Build(cs c06Case) c06Built {
 
 func c06Check(cs c06Case) (ok bool, sig, expected, observed string) {
 	b := c06Build(cs)
-	b.tree.write()
-	tpl, lo := b.tree.load()
+	var tpl *textwire.Template
+	var lo Outcome
+	if !cs.Prior {
+		b.tree.write()
+	} else {
+		decoy := Tree{Dir: "t0", Ext: ".tw", Files: map[string]string{
+			"lay.tw": `DECOY-LAYOUT @reserve("a")|@reserve("b")`, "layouts/lay.tw": `DECOY-LAYOUT2 @reserve("a")|@reserve("b")`,
+			"index.tw": `@use("lay")@insert("a", "decoy-a")`, "zpage2.tw": `@use("~lay")@insert("b")decoy-b@end`, "lc.tw": "<decoy-lc>", "plain.tw": "decoy plain"}}
+		decoy.write()
+		if dtpl, dlo := decoy.load(); dlo.Kind == KOut {
+			render(dtpl, "index", dataMap(b.data))
+			render(dtpl, "zpage2", dataMap(b.data))
+		}
+		b.tree.writeKeep()
+		tpl, lo = b.tree.loadKeep()
+	}
+	if !cs.Prior {
+		tpl, lo = b.tree.load()
+	}
 	desc := fmt.Sprintf("%v", b.tree.Files)
 	if lo.Kind == KPanic || lo.Kind == KHang {
 		return false, "load-" + lo.Kind + "@" + lo.Site, "no crash for " + desc, lo.String()
@@ -307,12 +327,12 @@ func c06Run(c *Ctx) {
 						}
 						for data := 0; data < 3; data++ {
 							// use form, junk and configuration rotate (all combinations in the thorough tier)
-							combos := [][3]int{{int(order) % 2, int(order/2) % 2, int(order/4) % 2}}
+							combos := [][4]int{{int(order) % 2, int(order/2) % 2, int(order/4) % 2, int(order/8) % 2}}
 							if (c.Thorough() && k <= 3) || k <= 2 {
-								combos = [][3]int{{0, 0, 0}, {1, 1, 0}, {0, 1, 1}, {1, 0, 1}}
+								combos = [][4]int{{0, 0, 0, 0}, {1, 1, 0, 0}, {0, 1, 1, 0}, {1, 0, 1, 0}, {0, 0, 0, 1}, {1, 1, 1, 1}}
 							}
 							for _, cb := range combos {
-								if !do(c06Case{Layout: lay, UseForm: cb[0], InsA: ia, InsB: ib, BFirst: bfirst, Junk: cb[1] == 1, Data: data, Cfg: cb[2]}) {
+								if !do(c06Case{Layout: lay, UseForm: cb[0], InsA: ia, InsB: ib, BFirst: bfirst, Junk: cb[1] == 1, Data: data, Cfg: cb[2], Prior: cb[3] == 1}) {
 									return false
 								}
 							}
@@ -345,7 +365,7 @@ func init() {
 	p := &Property{
 		ID:    "C06",
 		Level: "exploration",
-		Rule: "bounded-exhaustive template trees on disk: every layout that is a sequence of <=k items from {text, @reserve(a), @reserve(b), reserve inside @if(true) / @if(v)-else / @if(false) / the @else branch / an @each of two passes, {{ v }}} with distinct reserve names x every page (@use plain and ~ form) with each of the inserts a, b absent or in one of 6 forms (block: text, {{ v }}, @if(v); expression: literal, v, \"…\" + v), both orders, with/without junk text around them x data maps (v bound, unbound, falsy) x two directory/extension settings; plus duplicate inserts, a missing layout file and a layout that uses a layout. " +
+		Rule: "bounded-exhaustive template trees on disk: every layout that is a sequence of <=k items from {text, @reserve(a), @reserve(b), reserve inside @if(true) / @if(v)-else / @if(false) / the @else branch / an @each of two passes, {{ v }}} with distinct reserve names x every page (@use plain and ~ form) with each of the inserts a, b absent or in one of 6 forms (block: text, {{ v }}, @if(v); expression: literal, v, \"…\" + v), both orders, with/without junk text around them x data maps (v bound, unbound, falsy) x two directory/extension settings; plus duplicate inserts, a missing layout file and a layout that uses a layout.  [as built: prior-load dimension: a decoy directory with files of the same names is loaded and rendered earlier in the process]" +
 			"Reference: RefTW substitution; inserts that name no reserve must fail loading with an error naming the insert. Non-trivial: the page has at least one insert or a fault",
 		Bounds: func(tier string) map[string]any {
 			if tier == "thorough" {
